@@ -886,7 +886,18 @@ func exec(h *rt.H, s *state, op string) string {
 		default:
 			h.Count("conn:oracle-checked")
 		}
-		return cv + " " + kv
+		return cv + " " + kv + " " + cv
+	case "v1":
+		rule := func(r model.Rule) string { return r.SrcSelector + "|" + r.DstSelector }
+		in := []string{}
+		for _, r := range s.v1.InboundRules {
+			in = append(in, rule(r))
+		}
+		eg := []string{}
+		for _, r := range s.v1.OutboundRules {
+			eg = append(eg, rule(r))
+		}
+		return "sel[" + s.v1.Selector + "] in[" + strings.Join(in, ";") + "] eg[" + strings.Join(eg, ";") + "]"
 	case "simp":
 		var ps []numorstring.Port
 		for _, t := range splitL(",", w[1]) {
@@ -1155,7 +1166,7 @@ func genCase(h *rt.H) []string {
 		npSel = "_;_"
 	}
 	npML := strings.Split(npSel, ";")[0]
-	ops := []string{fmt.Sprintf("np %s %s %s %s %s", npNs, npSel, types, g.rules(), g.rules())}
+	ops := []string{fmt.Sprintf("np %s %s %s %s %s", npNs, npSel, types, g.rules(), g.rules()), "v1"}
 	for _, ns := range nsPool {
 		ops = append(ops, fmt.Sprintf("ns %s %s", ns, g.labels(3)))
 	}
